@@ -231,6 +231,7 @@ def main(argv):
                     fail("comments#directive_processing_changes_node_types_only", dict(comment=com, position=pos, source=src), dict(keep=str(keep)[:300], processed=str(proc)[:300]))
     if "C08" in only:
         base = CATALOGUE["plain"] + CATALOGUE["module"] + "subroutine k(w, n)\n  real, dimension(n) :: w\n  integer, intent(in) :: n\n  associate (a => w(1), b => (w(2) + 1.0))\n    a = b\n  end associate\n  open(unit=10, file='x')\n  nullify(p)\nend subroutine k\n"
+        import re as _re2
         from checks import enum_registries as ER2
         more = ["do while (i < n)\n  i = i + 1\nend do", "do while ((ok) .and. (.not. done))\n  i = 1\nend do", "if (a(1) > (b + c)) then\n  x = 1\nend if",
                 "select case (f(i))\ncase (1)\n  x = 1\nend select", "where (v(1:3) > (0))\n  v = 1\nend where", "forall (i = 1:n, a(i) > 0) a(i) = 1",
@@ -263,14 +264,23 @@ def main(argv):
                     if outside.count("(") == outside.count(")"):
                         continue
                     cases += 1
+                    # the syntactic place of the edit (used to identify known findings by their site)
+                    low = v.strip().lower()
+                    place = "other"
+                    if _re2.search(r"intent\s*\(\s*(in|out|inout)\s*\)\s*\)", low):
+                        place = "surplus_parenthesis_after_intent"
+                    elif _re2.search(r"\b(operator|assignment)\s*\(", low) or _re2.search(r"\b(operator|assignment)\s*=", low):
+                        place = "generic_spec"
+                    elif low.startswith("implicit"):
+                        place = "implicit_spec"
                     for std in okstd:
                         try:
                             parse(src, std)
-                            fail("parser#unbalanced_parentheses_rejected", dict(std=std, program=bname, line=v.strip(), source=src), "accepted")
+                            fail("parser#unbalanced_parentheses_rejected", dict(std=std, program=bname, line=v.strip(), place=place, source=src), "accepted")
                         except FortranSyntaxError:
                             pass
                         except BaseException as e:  # noqa
-                            fail("parser#unbalanced_parentheses_rejected", dict(std=std, program=bname, line=v.strip(), source=src), "raised %s instead of FortranSyntaxError" % type(e).__name__)
+                            fail("parser#unbalanced_parentheses_rejected", dict(std=std, program=bname, line=v.strip(), place=place, source=src), "raised %s instead of FortranSyntaxError" % type(e).__name__)
         # structural deletions: removing the opening or the closing line of an inner construct (or the terminating
         # statement of a labelled DO) leaves an ill-nested program, which must be rejected
         import re as _re2
